@@ -5,7 +5,7 @@
 (*   Structure  : coordinate counts, per-link joint types, parents, actuator indices, init_q  *)
 EXTENDS ModelSpace
 
-CONSTANTS MaxLinks, NModels
+CONSTANTS MaxLinks, NModels, OnlyClean
 
 VARIABLES model, acts, inj, expect
 vars == <<model, acts, inj, expect>>
@@ -57,7 +57,7 @@ Init ==
   /\ \E n \in 1..MaxLinks : \E g \in RandomSubset(NModels, [1..(n * GW + 10) -> GeneVals]) :
        /\ model = DecodeModel(g, n)
        /\ acts = ActsOf(model, [k \in 1..10 |-> g[n * GW + k]])
-  /\ \E k \in Kinds : \E s \in Sites(model, acts, k) : inj = [kind |-> k, site |-> s]
+  /\ \E k \in (IF OnlyClean THEN {"none"} ELSE Kinds) : \E s \in Sites(model, acts, k) : inj = [kind |-> k, site |-> s]
   /\ expect = [reject |-> Rejects(inj), structure |-> Structure(model, acts)]
 
 Next == UNCHANGED vars
